@@ -474,19 +474,35 @@ struct SpellState<'a> {
 	defined: HashSet<Id>,
 }
 
+/// a String built the way programs build them: with capacity to spare (whoever keeps pointers into it must not
+/// shrink or move it afterwards)
+fn roomy(x: &str) -> String {
+	let mut s = String::with_capacity(x.len() + 40);
+	s.push_str(x);
+	s
+}
+
 fn extras(rng: &mut Rng, kv: &mut Vec<(String, J)>, is_field: bool) {
 	// attributes a parser must tolerate and preserve
 	let n = rng.below(3);
 	for _ in 0..n {
-		match rng.below(6) {
-			0 => kv.push(("doc".into(), J::s("some \"doc\" \\ text\nline"))),
-			1 => kv.push(("aliases".into(), J::Arr(vec![J::s("OldName"), J::s("a.b.Older")]))),
-			2 if is_field => kv.push(("default".into(), J::Null)),
-			2 => kv.push(("x-custom".into(), J::Obj(vec![("k".into(), J::Arr(vec![J::n(1), J::Bool(true)]))]))),
-			3 if is_field => kv.push(("order".into(), J::s("descending"))),
-			3 => kv.push(("meta".into(), J::n(42))),
-			4 => kv.push(("unknown_key".into(), J::s("type"))),
-			_ => kv.push(("doc".into(), J::s("é∂ unicode ☃"))),
+		let (k, v): (&str, J) = match rng.below(8) {
+			0 => ("doc", J::s("some \"doc\" \\ text\nline")),
+			1 => ("aliases", J::Arr(vec![J::s("OldName"), J::s("a.b.Older")])),
+			2 if is_field => ("default", J::Null),
+			2 => ("x-custom", J::Obj(vec![("k".into(), J::Arr(vec![J::n(1), J::Bool(true)]))])),
+			3 if is_field => ("order", J::s("descending")),
+			3 => ("meta", J::n(42)),
+			4 => ("unknown_key", J::s("type")),
+			// a string that ends in a backslash, and one with runs of spaces and quotes inside: what a hand-written
+			// scanner of string literals gets wrong
+			5 => ("doc", J::s("exported from C:\\exports\\")),
+			6 => ("note", J::s("two  spaces,\ttab and a \" quote \\\" inside")),
+			_ => ("doc", J::s("é∂ unicode ☃")),
+		};
+		// (an object never gets the same key twice: what that would mean is not specified anywhere)
+		if kv.iter().all(|(kk, _)| kk != k) {
+			kv.push((k.to_owned(), v));
 		}
 	}
 }
@@ -1065,12 +1081,12 @@ impl RSchema {
 						cs::Name::from_fully_qualified_name(name.clone()),
 						fields
 							.iter()
-							.map(|(f, i)| cs::RecordField::new(f.clone(), k(*i)))
+							.map(|(f, i)| cs::RecordField::new(roomy(f), k(*i)))
 							.collect(),
 					)),
 					Kind::Enum { name, symbols } => cs::RegularType::Enum(cs::Enum::new(
 						cs::Name::from_fully_qualified_name(name.clone()),
-						symbols.clone(),
+						symbols.iter().map(|x| roomy(x)).collect(),
 					)),
 					Kind::Fixed { name, size } => cs::RegularType::Fixed(cs::Fixed::new(
 						cs::Name::from_fully_qualified_name(name.clone()),
